@@ -84,7 +84,7 @@ impl Sim {
     /// Extracts the harness sequence number from an event payload.
     fn seq_of_payload(kind: &str, p: &[u8]) -> Option<u32> {
         match kind {
-            "STrig" | "SIndTrig" | "CTrig" => {
+            "STrig" | "SIndTrig" | "SEvTrig" | "CTrig" => {
                 let (n, mut off) = wire::varint(p)?;
                 for _ in 0..n {
                     let (_, k) = wire::entity(&p[off..])?;
@@ -615,6 +615,37 @@ impl Sim {
                     errs.push((vec!["C12"], format!("client{ci}: tick {t} reported as received but ServerMutateTicks::contains says no")));
                 }
             }
+            // ... and the notification does fire once every message of a tick has been applied (unless
+            // the tick had already left the 64-tick window when its last message was processed)
+            let last = c.app.world().resource::<ServerMutateTicks>().last_tick().get();
+            // newest tick of which the client has processed at least one message
+            let newest = c
+                .delivered_per_tick
+                .keys()
+                .filter(|t| c.delivered_reqs.get(*t).is_some_and(|reqs| reqs.iter().any(|r| *r <= u)))
+                .max()
+                .copied()
+                .unwrap_or(0);
+            let complete: Vec<u32> = c
+                .delivered_per_tick
+                .iter()
+                .filter(|(t, n)| c.sent_per_tick.get(*t) == Some(*n) && !c.completion_checked.contains(*t))
+                .filter(|(t, _)| c.delivered_reqs.get(*t).is_some_and(|reqs| reqs.iter().all(|r| *r <= u)))
+                .map(|(t, _)| *t)
+                .collect();
+            for t in complete {
+                c.completion_checked.insert(t);
+                self.obs.inc("c12_completed_ticks_checked");
+                if newest - t < 60 && !c.fired.contains(&t) {
+                    errs.push((
+                        vec!["C12"],
+                        format!(
+                            "client{ci}: every mutate message of tick {t} has been delivered and applied, but the tick was not reported (ServerMutateTicks::last_tick {last}; {} message(s) requiring update ticks {:?}, client at {u})",
+                            c.sent_per_tick[&t], c.delivered_reqs[&t]
+                        ),
+                    ));
+                }
+            }
         } else {
             c.app.world_mut().resource_mut::<Log>().mutate_ticks.clear();
         }
@@ -694,6 +725,7 @@ impl Sim {
                 w.send_event(ToClients { mode: sm, event: SMap { seq, e: se.unwrap() } });
             }
             "STrig" => w.server_trigger_targets(ToClients { mode: sm, event: STrig(seq) }, se.unwrap()),
+            "SEvTrig" => w.server_trigger(ToClients { mode: sm, event: SEv(seq) }),
             _ => w.server_trigger_targets(ToClients { mode: sm, event: SIndTrig(seq) }, se.unwrap()),
         }
         self.pending_s.push((k, seq, mode, se));
@@ -1093,7 +1125,7 @@ impl Sim {
                 let Ok(cw) = c.app.world().get_entity(*ce) else { continue };
                 for k in 0..NK {
                     let got = match (k, get_kind(&cw, k)) {
-                        (K_LINK | K_ATT, Some(Val::E(t))) => Some(to_server.get(&t).map(|x| Val::E(*x)).unwrap_or(Val::U(u32::MAX))),
+                        (K_LINK | K_ATT | K_OWN, Some(Val::E(t))) => Some(to_server.get(&t).map(|x| Val::E(*x)).unwrap_or(Val::U(u32::MAX))),
                         (_, g) => g,
                     };
                     if k == K_ONCE {
@@ -1124,7 +1156,7 @@ impl Sim {
                             continue;
                         }
                     }
-                    if (k == K_LINK || k == K_ATT) && got == Some(Val::U(u32::MAX)) {
+                    if (k == K_LINK || k == K_ATT || k == K_OWN) && got == Some(Val::U(u32::MAX)) {
                         if let Some(Val::E(target)) = &snap[k] {
                             if self.repointed.contains(&(ci, *target)) {
                                 known.push(format!(
